@@ -35,6 +35,10 @@ def corpus():
     # delete from inside a callback: another pending timer, another already queued timer, itself (stale by then)
     c.append(["I 1 1000 0", "B 1 D @1 ; D @2 ; D @0 ; U @1 ; U @2 ; A 1 2000000 4 14 ; X @3",
               "A 1 1000000 1 10", "A 1 1000000 2 11", "A 1 9000000 3 12", "RUN -2 -2 -2 -2 -2 -2 -2"])
+    # never-issued handle value (check half 0) aimed at the slot whose callback is running
+    # (fixes/C08-timer-del-forged-handle.patch): must be refused; the timer added next must survive
+    c.append(["I 1 1000 0", "B 2 D L1 ; A 0 5000000 4 104 ; U @2", "A 2 1000000000000 1 101", "A 0 1000000 2 102", "T 2000000",
+              "RUN -2 -2 -2 -2", "U @2", "X @2", "T 9000000", "RUN -2 -2 -2 -2 -2", "U @2"])
     # equal expiries, one priority; more than to_process of them
     c.append(["I 1 1000 0"] + ["A 1 5000000 %d %d" % (i, 20 + i) for i in range(1, 8)] + ["RUN -2 -2 -2 -2 -2 -2 -2 -2"])
     # the 50 ms job throttle with a timer due earlier; one clock tick of slack (hz = 250 -> 4 ms)
@@ -243,10 +247,11 @@ def monitor(lines):
                 h = int(c[1])
                 if h != 0 and (h >> 32) == 0 and res == 0:
                     # a forged handle (check word 0: never issued by timer_add, whose check words are non-zero) was
-                    # accepted - it can only have hit the slot of the timer whose callback is running (its check word is
-                    # zeroed during dispatch).  The caller broke the API contract; what the loop does afterwards is not
-                    # covered by the property (the model still has to agree with the implementation).
-                    return None
+                    # accepted: it can only have hit the slot of the timer whose callback is running (its check word is
+                    # zeroed during dispatch) and un-registers nothing the caller owns - the C08 clause "a stale handle is
+                    # rejected without affecting any other registration" (fixes/C08-timer-del-forged-handle.patch)
+                    return ("timer_del accepted the never-issued handle value %d (check half 0) at clock %s: it matched the "
+                            "entry of the timer being dispatched" % (h, c[2]))
                 t = timers.get(by_handle.get(h))
                 if t and t["state"] == "pending":
                     if res != 0:
